@@ -69,6 +69,28 @@ def make_case(rng, idx):
         p1 = prims.rebuild("point", (c + t * e,))
         sc.contact = True
         return name, fname, kwargs, sc, p1, p2
+    if p2.kind in ("triangle", "rectangle") and p1.kind != "point" and rng.random() < 0.12:
+        # grazing class: the first primitive passes through a point that lies in the plane of the polygon just OUTSIDE one
+        # of its edges (gap 1e-9 .. 1e-4 of the size): a near miss, not a hit
+        try:
+            if p2.kind == "triangle":
+                V = np.asarray(p2.args[0], float)
+            else:
+                c_, ax_, ln_ = p2.args
+                V = np.array([c_ + sx * 0.5 * ln_[0] * ax_[0] + sy * 0.5 * ln_[1] * ax_[1] for sx, sy in ((-1, -1), (1, -1), (1, 1), (-1, 1))])
+            k = int(rng.integers(len(V)))
+            a_, b_ = V[k], V[(k + 1) % len(V)]
+            nrm = np.cross(V[1] - V[0], V[2] - V[0]); nrm /= np.linalg.norm(nrm)
+            out = np.cross(b_ - a_, nrm); out /= np.linalg.norm(out)
+            if out @ (V.mean(axis=0) - a_) > 0:
+                out = -out
+            size_ = float(np.linalg.norm(b_ - a_))
+            q = a_ + rng.uniform(0.15, 0.85) * (b_ - a_) + out * size_ * 10 ** rng.uniform(-9, -4)
+            p1 = prims.translated(p1, q - prims.some_point_of(p1, rng))
+            sc.contact = True
+            return name, fname, kwargs, sc, p1, p2
+        except Exception:  # noqa: BLE001
+            pass
     if rng.random() < 0.25:
         # contact class: a point of the first primitive coincides with a point of the second (true distance 0,
         # lines piercing triangles/rectangles/boxes, primitives touching at a feature)
